@@ -37,6 +37,18 @@ def run(tier):
     fams = sorted({c["carrier"] for c in cells})
     if len(cells) != len(types) * len(fams) or len(fams) < 40:
         raise ToolError("matrix incomplete: %d cells, %d types, %d families" % (len(cells), len(types), len(fams)))
+    # the same matrix with every collection / UDT type described as FROZEN (as servers describe nested and frozen columns):
+    # frozen-ness changes nothing about which values fit
+    tout2 = os.path.join(wd, "matrix-frozen.ndjson")
+    run_harness("vh-cql", ["c17-matrix", tin, tout2], timeout=900, env_extra={"VH_FROZEN": "1"})
+    cells2 = read_ndjson(tout2)
+    if len(cells2) != len(cells):
+        raise ToolError("frozen matrix incomplete: %d of %d" % (len(cells2), len(cells)))
+    for c in cells:
+        c["frozen"] = 0
+    for c in cells2:
+        c["frozen"] = 1
+    cells = cells + cells2
     # ---- rollback -----------------------------------------------------------------------------------------------
     maxlen = 4 if tier == "quick" else 5
     cfg = os.path.join(wd, "MC_Rollback.cfg")
@@ -85,9 +97,10 @@ def run(tier):
                 continue
             bad = rows[(rej or 1) - 1]
             if name == "matrix":
-                v.violation("carrier %s on column type %s: serialize %s (bytes left after refusal: %d, panic %d), type_check %s — "
+                v.violation("carrier %s on column type %s%s: serialize %s (bytes left after refusal: %d, panic %d), type_check %s — "
                             "differs from the documented compatibility relation" % (
-                                bad["carrier"], json.dumps(bad["t"]), "accepted" if bad["ser_ok"] else "refused", bad["ser_left"],
+                                bad["carrier"], json.dumps(bad["t"]), " (collection / UDT types described as frozen)" if bad.get("frozen") else "",
+                                "accepted" if bad["ser_ok"] else "refused", bad["ser_left"],
                                 bad["ser_panic"], {1: "accepted", 0: "refused", -1: "n/a"}[bad["tc_ok"]]), [bad])
             else:
                 hist = hists[bad["h"]]["ops"]
@@ -107,7 +120,8 @@ def run(tier):
         raise ToolError("Trace_BindWhole did not consume its input (line %s)" % rej)
     for b in sorted({int(m.group(1)) - 1 for m in _re.finditer(r'<<"BAD", (\d+)>>', rw.out)})[:10]:
         x = wrec[b]
-        what = {"row": "a whole row of %s values bound at once" % x.get("n"),
+        what = {"writer": "one RowWriter given %s (0 = a cell written directly, k = a serialised row of k-1 values appended)" % x.get("steps"),
+                "row": "a whole row of %s values bound at once" % x.get("n"),
                 "vec": "a sequence of %s %s elements bound to vector<%s, %s>" % (x.get("len"), x.get("elem"), x.get("elem"), x.get("d")),
                 "rowtc": "a row of %s columns read into a tuple of arity %s" % (x.get("cols"), x.get("arity"))}[x["kind"]]
         v.violation("%s: %s" % (what, json.dumps({k: x[k] for k in x if k not in ("kind",)})), [x])
